@@ -109,6 +109,8 @@ pub fn execute(scn: &Scn, opts: &ExecOpts) -> Outcome {
         via_config: false,
         omit_append_key: false,
         silent: vec![],
+        via_logger: false,
+        std_broken: false,
         sched_seed: 0,
         policy: kernel::Policy::RoundRobin,
     };
